@@ -42,6 +42,13 @@ func rewriteSignatures(clusterID string, expectHash string,
 		return nil, err
 	}
 
+	if col.ManifestText != "" && !strings.HasSuffix(col.ManifestText, "\n") {
+		// The loop below writes a newline after every line; an
+		// unterminated last line would be hashed and relayed
+		// as something the remote did not send.
+		return nil, fmt.Errorf("Invalid manifest: no newline at end")
+	}
+
 	// rewriting signatures will make manifest text 5-10% bigger so calculate
 	// capacity accordingly
 	updatedManifest := bytes.NewBuffer(make([]byte, 0, int(float64(len(col.ManifestText))*1.1)))
